@@ -9,6 +9,7 @@ CONSTANTS
   MaxObjs = 1
   Parents = {"none"}
   Fmts = {"F1"}
+  BadOverrides = TRUE
   SecondReport = TRUE
   Variant = "impl"
 INVARIANT ExactlyOnce
